@@ -392,9 +392,14 @@ func c10Judge(c *run.Ctx, w *world.World) {
 			r.Violate("c10.model", "c10.model:"+kind+":"+shape, exp.String(), got.String(),
 				fmt.Sprintf("%s => %s ; first differing point %s/%d ; policy part allows: %s", ic, wl.PeerString(), pr, port, pol.String()))
 		}
-		if ps := ports[wi]; ps != nil && !ps.IsEmpty() && exp.IsEmpty() {
+		// a backend is blocked when the workload is targeted and nothing is left: the policies allow none of the reached ports, or the
+		// designated service port reaches no TCP container port of the workload at all (the intersection is empty either way)
+		if ps := ports[wi]; targeted[wi] && ps != nil && exp.IsEmpty() {
 			blocked = true
 			r.Ev("blocked_backends", 1)
+			if ps.IsEmpty() {
+				r.Ev("blocked_backends_reaching_no_container_port", 1)
+			}
 			named := false
 			for _, e := range res.Errs {
 				if !e.Fatal && strings.Contains(e.Text, wl.PeerString()) {
